@@ -2,7 +2,7 @@
    G0 p: pos_ok p (C01), at most 64 pieces in the game (then no stack can outgrow the 64-bit stack words: every standard game
    on 3x3..6x6), ply >= 0, and in the opening plies the stones that are about to be placed exist. *)
 From Coq Require Import NArith ZArith List Bool Lia.
-Require Import Board Stack Rules Move GameOver Refine RefinePlace RefinePlace2 Slide2 Slide6 MoveRefines LegalMoveLive PtnFileSafe
+Require Import Board Stack Rules Move GameOver Refine Alloc RefinePlace RefinePlace2 Slide2 Slide6 MoveRefines LegalMoveLive PtnFileSafe
                Preserve1 Preserve5 Preserve6 PreserveEx Eval EvalInst Mcts MctsFacts MctsFacts2 MctsFacts3 MctsFacts4.
 Import ListNotations.
 
@@ -111,5 +111,19 @@ Proof.
   split; [intros _; vm_compute; reflexivity|].
   intros i j Hi. exfalso. revert Hi. unfold start5, Alloc.new_pos. cbn [White Move.Black]. unfold has. cbn. discriminate.
 Qed.
+(* non-vacuity of the legality theorems: the model does return moves.  3x3 start position, scores that always tie, a stream of
+   zeros (every tie draw picks the newer child): three passes visit the last child twice; sort.Sort moves it to the front. *)
+Definition ex_p3 : position := Alloc.new_pos 3 false 10 0.
+Definition ex_search : res (rmove * rstream) :=
+  get_move unit tt tt tt tt (fun _ _ _ => tt) (fun _ _ => false) (fun _ _ => true)
+    {| place_win := true; max_rollout := 2; eval_threshold := 2000; force_corners := false |}
+    3 [8; 0; 1; 2; 3; 4; 5; 6; 7]%nat ex_p3 (repeat 0%N 40).
+Example ex_getmove_search : ex_search = Ok ({| mX := 2; mY := 2; mT := 2; mS := 0 |}, repeat 0%N 8).
+Proof. vm_compute. reflexivity. Qed.
+Definition ex_corner : res (rmove * rstream) :=
+  get_move unit tt tt tt tt (fun _ _ _ => tt) (fun _ _ => false) (fun _ _ => true)
+    {| place_win := false; max_rollout := 2; eval_threshold := 2000; force_corners := true |} 3 [] ex_p3 [1; 0]%N.
+Example ex_getmove_corner : ex_corner = Ok ({| mX := 2; mY := 0; mT := 2; mS := 0 |}, []).
+Proof. vm_compute. reflexivity. Qed.
 Print Assumptions getmove_no_panic_partial.
 Print Assumptions getmove_legal.
